@@ -133,6 +133,26 @@ pub fn f_bounded_count_cross<'a>(a: S<'a, i64>) -> S<'a, (i64, usize)> {
     a.cross_singleton(p.source_iter(q!(vec![5i64, 6, 7])).count())
 }
 
+/// Bounded top-level fold turned back into a stream (`fold_no_replay`): must be emitted exactly once,
+/// however many ticks run.
+pub fn f_bounded_fold_chain<'a>(a: S<'a, i64>) -> S<'a, i64> {
+    let p = a.location().clone();
+    p.source_iter(q!(vec![5i64, 6, 7]))
+        .count()
+        .into_stream()
+        .map(q!(|c| c as i64))
+        .chain(a)
+}
+
+/// Same for a bounded top-level reduce (`reduce_no_replay`).
+pub fn f_bounded_reduce_chain<'a>(a: S<'a, i64>) -> S<'a, i64> {
+    let p = a.location().clone();
+    p.source_iter(q!(vec![5i64, 6, 7]))
+        .reduce(q!(|acc, x| *acc += x))
+        .into_stream()
+        .chain(a)
+}
+
 /// NOT generated by hv_det_emb/build.rs: constructing this (well-typed) flow panics in
 /// `Stream::new` with debug assertions on, because `Stream::filter_not_in` labels its output node
 /// `Bounded` even when `self` is `Unbounded` (side finding, belongs to C41).
